@@ -141,7 +141,7 @@ def compare(want, got, first_order_class=False):
 # ----------------------------------------------------------------- generation
 def gen_tags(rng):
     tags = []
-    names = rng.sample(NAMES, rng.randint(0, 4))
+    names = rng.sample(NAMES, rng.choice([0, 1, 2, 3, 4, 4, 8, len(NAMES)]))
     for n in names:
         kind = rng.choice(["s", "s", "b", "b", "bo"])
         tags.append({"kind": kind, "name": n,
@@ -218,6 +218,9 @@ def generate(rng, tier):
         elif r < 0.85 and paths:
             pid, v = rng.choice(paths)
             o = {"op": "load", "path": pid, "variant": v}
+            if rng.random() < 0.12:
+                # name the cell type explicitly (the one the file holds)
+                o["force_type"] = True
             if rng.random() < 0.3:
                 o["into"] = "m%d" % nm
                 nm += 1
@@ -423,7 +426,14 @@ def do_save(m, path, variant, pd, cd, enc_pd=False):
         m.save(path, point_data=pd, cell_data=cd, **kw)
 
 
-def do_load(path, variant, want_data):
+_MESHIO_TYPE = {"MeshLine1": "line", "MeshTri1": "triangle",
+                "MeshQuad1": "quad", "MeshTet1": "tetra",
+                "MeshHex1": "hexahedron", "MeshTri2": "triangle6",
+                "MeshQuad2": "quad9", "MeshTet2": "tetra10",
+                "MeshHex2": "hexahedron27", "MeshWedge1": "wedge"}
+
+
+def do_load(path, variant, want_data, force_type=False):
     from skfem import Mesh
     if variant == "json":
         from skfem.io.json import from_file
@@ -433,7 +443,10 @@ def do_load(path, variant, want_data):
         from skfem import mesh as skm
         return getattr(skm, cls).load_npz(path), None
     out = ["point_data", "cell_data"]
-    m = Mesh.load(path, out=out)
+    kw = {}
+    if force_type and want_data.get("cls") in _MESHIO_TYPE:
+        kw["force_meshio_type"] = _MESHIO_TYPE[want_data["cls"]]
+    m = Mesh.load(path, out=out, **kw)
     return m, out
 
 
@@ -728,7 +741,8 @@ def _load(o, W, model, scratch, probes, bump):
     path = os.path.join(scratch, o["path"] + VARIANTS[variant][0])
     mcls = entry["snap"]["cls"]
     try:
-        m, out = do_load(path, variant, entry["snap"])
+        m, out = do_load(path, variant, entry["snap"],
+                         force_type=o.get("force_type", False))
     except Exception as e:
         cls = "R3-acknowledged-save-under-fault-unreadable" \
             if entry.get("under_fault") else "R1-load-raised"
